@@ -207,6 +207,7 @@ Lemma sets_ll_free :
 Proof.
   apply syntax_mutind; cbn [free_jump free_jump_b sets_ll sets_ll_b]; auto; try (intros; discriminate).
   - intros sup b IHb H. destruct sup; auto.
+  - intros b _ hs _ e _ f IHf H. apply orb_false_iff in H. destruct H as [_ H]. auto.
   - intros s IHs r IHr H. apply orb_false_iff in H. destruct H as [H1 H2].
     rewrite (IHs H1), (IHr H2). reflexivity.
 Qed.
@@ -225,24 +226,27 @@ Definition exits (st : state) : list scope := cur st :: loops st.
 (* every path ending in break/continue is covered by one of the scopes E: it holds
    LEAVES_LOOP, not LEAVES_SCOPE, has at least the keys of the entry dict c0, and covers the
    concrete binding of every variable *)
-Definition lcl (c0 : scope) (E : list scope) (Q : outcome -> trace -> Prop) : Prop :=
-  forall o t, is_jump o -> Q o t ->
-  exists sc, In sc E /\ ll sc = true /\ ls sc = false /\ kle (vars c0) (vars sc) /\
-     forall v d0, satv v d0 c0 -> satv v (applyv t v d0) sc.
+Definition hasll (E : list scope) : Prop := exists sc', In sc' E /\ ll sc' = true /\ ls sc' = false.
+
+Definition lcl (c0 : scope) (st' : state) (Q : outcome -> trace -> Prop) : Prop :=
+  (forall o t, is_jump o -> Q o t ->
+   exists sc, In sc (exits st') /\ (ll sc = true \/ In sc (loops st')) /\ ls sc = false /\ kle (vars c0) (vars sc) /\
+     forall v d0, satv v d0 c0 -> satv v (applyv t v d0) sc) /\
+  (forall o t, is_jump o -> Q o t -> hasll (exits st')).
 
 Definition P_s (s : stmt) : Prop := lower_ok_s s = true -> forall st,
   grow st (visit_s s st) /\ kle (vars (cur st)) (vars (cur (visit_s s st))) /\
   incl (loops st) (loops (visit_s s st)) /\
   (sets_ll s = false -> ll (cur (visit_s s st)) = ll (cur st)) /\
   (live (cur st) -> snd_ok st (visit_s s st) (upath_s s) (path_s s ONorm) /\
-                    lcl (cur st) (exits (visit_s s st)) (path_s s)).
+                    lcl (cur st) (visit_s s st) (path_s s)).
 
 Definition P_b (b : block) : Prop := lower_ok_b b = true -> forall st,
   grow st (visit_b b st) /\ kle (vars (cur st)) (vars (cur (visit_b b st))) /\
   incl (loops st) (loops (visit_b b st)) /\
   (sets_ll_b b = false -> ll (cur (visit_b b st)) = ll (cur st)) /\
   (live (cur st) -> snd_ok st (visit_b b st) (upath_b b) (path_b b ONorm) /\
-                    lcl (cur st) (exits (visit_b b st)) (path_b b)).
+                    lcl (cur st) (visit_b b st) (path_b b)).
 
 Definition P_hs (hs : handlers) : Prop := lower_ok_hs hs = true -> forall dummy failure o,
   grow o (snd (visit_hs hs dummy failure o)) /\
@@ -256,8 +260,10 @@ Definition P_hs (hs : handlers) : Prop := lower_ok_hs hs = true -> forall dummy 
          forall v d0, satv v d0 failure -> satv v (applyv t v d0) h) /\
      (forall o' t, is_jump o' -> path_hs hs o' t ->
          exists sc, In sc (fst (visit_hs hs dummy failure o) ++ loops (snd (visit_hs hs dummy failure o))) /\
-           ll sc = true /\ ls sc = false /\ kle (vars (cur o)) (vars sc) /\
-           forall v d0, satv v d0 failure -> satv v (applyv t v d0) sc)).
+           (ll sc = true \/ In sc (loops (snd (visit_hs hs dummy failure o)))) /\ ls sc = false /\ kle (vars (cur o)) (vars sc) /\
+           forall v d0, satv v d0 failure -> satv v (applyv t v d0) sc) /\
+     (forall o' t, is_jump o' -> path_hs hs o' t ->
+         hasll (fst (visit_hs hs dummy failure o) ++ loops (snd (visit_hs hs dummy failure o))))).
 
 Lemma enter_live : forall st, live (cur st) -> live (cur (enter st)).
 Proof. intros st [H1 H2]. split; cbn; auto. Qed.
@@ -275,9 +281,22 @@ Lemma combine_loops_incl : forall S st, incl (loops st) (loops (combine S st)).
 Proof. intros S st x H. unfold combine. cbn [loops]. apply in_or_app. left. exact H. Qed.
 
 (* a LEAVES_LOOP scope of a sub-visit stays an exit scope of the enclosing visit *)
-Lemma exits_flow : forall s1 (L : list scope) sc, In sc (exits s1) -> ll sc = true ->
+Lemma exits_flow : forall s1 (L : list scope) sc, In sc (exits s1) -> (ll sc = true \/ In sc (loops s1)) ->
   (ll (cur s1) = true -> In (cur s1) L) -> incl (loops s1) L -> In sc L.
-Proof. intros s1 L sc [<-|H] Hll H1 H2; auto. Qed.
+Proof. intros s1 L sc [<-|H] [Hll|Hl] H1 H2; auto. Qed.
+
+Lemma hasll_flow : forall s1 (L : list scope), hasll (exits s1) ->
+  (ll (cur s1) = true -> In (cur s1) L) -> incl (loops s1) L -> hasll L.
+Proof.
+  intros s1 L (sc & Hin & Hll & Hls) H1 H2. exists sc. split; [|auto].
+  apply (exits_flow s1 L sc Hin (or_introl Hll) H1 H2).
+Qed.
+
+Lemma hasll_incl : forall L L', hasll L -> incl L L' -> hasll L'.
+Proof. intros L L' (sc & H1 & H2) Hi. exists sc. split; [apply Hi; exact H1|exact H2]. Qed.
+
+Lemma outcome_norm_dec : forall o : outcome, o = ONorm \/ o <> ONorm.
+Proof. intros []; auto; right; discriminate. Qed.
 
 Lemma jump_not_norm : forall o, is_jump o -> o <> ONorm.
 Proof. intros o [->| ->]; discriminate. Qed.
@@ -357,9 +376,15 @@ Proof.
   split; [intros x Hx; apply L2; apply Le; apply Lb; exact Hx|].
   split; [intros _; reflexivity|].
   intros Hl.
-  destruct (Sb (enter_live _ Hl)) as ((Ub & Nb) & Cb).
-  destruct (Se (enter_live (restore st s1) Hl)) as ((Ue & Ne) & Ce).
-  split; [split|].
+  destruct (Sb (enter_live _ Hl)) as ((Ub & Nb) & (Cb & Eb)).
+  destruct (Se (enter_live (restore st s1) Hl)) as ((Ue & Ne) & (Ce & Ee)).
+  assert (F1 : ll (cur s1) = true -> In (cur s1) (loops (if_finish st s1 s2))).
+  { intros X. apply combine_loops_in; [left; reflexivity|exact X]. }
+  assert (F1' : incl (loops s1) (loops (if_finish st s1 s2))).
+  { intros x Hx. apply L2. apply Le. exact Hx. }
+  assert (F2 : ll (cur s2) = true -> In (cur s2) (loops (if_finish st s1 s2))).
+  { intros X. apply combine_loops_in; [right; left; reflexivity|exact X]. }
+  split; [split|split].
   - intros t v u d0 [H|H] Hs.
     + apply Ge. eapply Ub; eauto.
     + eapply Ue; eauto.
@@ -374,15 +399,14 @@ Proof.
         apply S1. exact Hs.
   - intros o t Hj [H|H].
     + destruct (Cb o t Hj H) as (sc & Hin & Hll & Hls & Hk & Hs). exists sc.
-      split; [|split; [exact Hll|split; [exact Hls|split; [exact Hk|exact Hs]]]].
-      right. apply (exits_flow s1 _ sc Hin Hll).
-      * intros X. apply combine_loops_in; [left; reflexivity|exact X].
-      * intros x Hx. apply L2. apply Le. exact Hx.
+      pose proof (exits_flow s1 _ sc Hin Hll F1 F1') as X.
+      split; [right; exact X|split; [right; exact X|split; [exact Hls|split; [exact Hk|exact Hs]]]].
     + destruct (Ce o t Hj H) as (sc & Hin & Hll & Hls & Hk & Hs). exists sc.
-      split; [|split; [exact Hll|split; [exact Hls|split; [exact Hk|exact Hs]]]].
-      right. apply (exits_flow s2 _ sc Hin Hll).
-      * intros X. apply combine_loops_in; [right; left; reflexivity|exact X].
-      * exact L2.
+      pose proof (exits_flow s2 _ sc Hin Hll F2 L2) as X.
+      split; [right; exact X|split; [right; exact X|split; [exact Hls|split; [exact Hk|exact Hs]]]].
+  - intros o t Hj [H|H].
+    + eapply hasll_incl; [apply (hasll_flow s1 _ (Eb o t Hj H) F1 F1')|intros x Hx; right; exact Hx].
+    + eapply hasll_incl; [apply (hasll_flow s2 _ (Ee o t Hj H) F2 L2)|intros x Hx; right; exact Hx].
 Qed.
 
 Lemma case_with : forall sup b, P_b b -> P_s (SWith sup b).
@@ -394,9 +418,9 @@ Proof.
     split; [exact Gb|]. split; [apply suppress_kle|].
     split; [intros x Hx; apply suppress_loops_incl; apply Lb; exact Hx|].
     split; [intros _; reflexivity|].
-    intros Hl. destruct (Sb (enter_live _ Hl)) as ((Ub & Nb) & Cb).
+    intros Hl. destruct (Sb (enter_live _ Hl)) as ((Ub & Nb) & (Cb & Eb)).
     destruct path_assigned as (_ & Pb & _).
-    split; [split|].
+    split; [split|split].
     + intros t v u d0 H Hs. cbn [upath_s] in H. eapply Ub; eauto.
     + intros t H. split; [apply suppress_live; exact Hl|].
       intros v d0 Hs. apply suppress_path_sat; auto.
@@ -404,15 +428,17 @@ Proof.
     + intros o t Hj H. cbn [path_s] in H.
       destruct H as [H|(_ & X & _)]; [|exfalso; apply (jump_not_norm o Hj X)].
       destruct (Cb o t Hj H) as (sc & Hin & Hll & Hls & Hk & Hs). exists sc.
-      split; [|split; [exact Hll|split; [exact Hls|split; [exact Hk|exact Hs]]]].
-      right. apply (exits_flow s1 _ sc Hin Hll).
-      * apply suppress_inner_loops.
-      * apply suppress_loops_incl.
+      pose proof (exits_flow s1 _ sc Hin Hll (suppress_inner_loops (grouped (assigned_b b)) st s1) (suppress_loops_incl (grouped (assigned_b b)) st s1)) as X.
+      split; [right; exact X|split; [right; exact X|split; [exact Hls|split; [exact Hk|exact Hs]]]].
+    + intros o t Hj H. cbn [path_s] in H.
+      destruct H as [H|(_ & X & _)]; [|exfalso; apply (jump_not_norm o Hj X)].
+      eapply hasll_incl; [apply (hasll_flow s1 _ (Eb o t Hj H) (suppress_inner_loops (grouped (assigned_b b)) st s1) (suppress_loops_incl (grouped (assigned_b b)) st s1))|intros x Hx; right; exact Hx].
   - destruct (IHb Hok st) as (Gb & Kb & Lb & Mb & Sb).
     split; [exact Gb|]. split; [exact Kb|]. split; [exact Lb|]. split; [exact Mb|].
-    intros Hl. destruct (Sb Hl) as ((Ub & Nb) & Cb). split; [split|].
+    intros Hl. destruct (Sb Hl) as ((Ub & Nb) & (Cb & Eb)). split; [split|split].
     + intros t v u d0 H Hs. cbn [upath_s] in H. eauto.
     + intros t H. cbn [path_s] in H. destruct H as [H|(X & _)]; [auto|discriminate].
+    + intros o t Hj H. cbn [path_s] in H. destruct H as [H|(X & _)]; [eauto|discriminate].
     + intros o t Hj H. cbn [path_s] in H. destruct H as [H|(X & _)]; [eauto|discriminate].
 Qed.
 
@@ -429,7 +455,7 @@ Proof.
   split.
   { intros H. cbn [sets_ll_b] in H. apply orb_false_iff in H. destruct H as [H1 H2].
     rewrite (Mr H2). apply Ms. exact H1. }
-  intros Hl. destruct (Ss Hl) as ((Us & Ns) & Cs). split; [split|].
+  intros Hl. destruct (Ss Hl) as ((Us & Ns) & (Cs & Es)). split; [split|split].
   - intros t v u d0 H Hs. cbn [upath_b] in H. destruct H as [H|(t1 & t2 & H1 & H2 & ->)].
     + apply Gr. eapply Us; eauto.
     + destruct (Ns t1 H1) as (L1 & S1). destruct (Sr L1) as ((Ur & _) & _).
@@ -439,12 +465,23 @@ Proof.
     destruct (Nr t2 H2) as (L2 & S2). split; [exact L2|].
     intros v d0 Hs. rewrite applyv_app. apply S2. apply S1. exact Hs.
   - intros o t Hj H. cbn [path_b] in H. destruct H as [(t1 & t2 & H1 & H2 & ->)|(_ & H)].
-    + destruct (Ns t1 H1) as (L1 & S1). destruct (Sr L1) as (_ & Cr).
+    + destruct (Ns t1 H1) as (L1 & S1). destruct (Sr L1) as (_ & (Cr & _)).
       destruct (Cr o t2 Hj H2) as (sc & Hin & Hll & Hls & Hk & Hs). exists sc.
       split; [exact Hin|]. split; [exact Hll|]. split; [exact Hls|]. split; [eapply kle_trans; eauto|].
       intros v d0 Hv. rewrite applyv_app. apply Hs. apply S1. exact Hv.
     + destruct (Cs o t Hj H) as (sc & Hin & Hll & Hls & Hk & Hs). exists sc.
-      split; [|split; [exact Hll|split; [exact Hls|split; [exact Hk|exact Hs]]]].
+      assert (X : (sc = cur st1 /\ ll sc = true) \/ In sc (loops st1)).
+      { destruct Hll as [Hll|Hll]; [|right; exact Hll]. destruct Hin as [<-|Hin]; [left; auto|right; exact Hin]. }
+      destruct X as [(-> & Hll1)|Hin1].
+      * destruct (sets_ll s) eqn:E.
+        -- cbn in Hlast. destruct r; [|discriminate]. cbn [visit_b].
+           split; [left; reflexivity|split; [left; exact Hll1|split; [exact Hls|split; [exact Hk|exact Hs]]]].
+        -- exfalso. rewrite (Ms eq_refl) in Hll1. destruct Hl as [_ Hl2]. rewrite Hl2 in Hll1. discriminate.
+      * pose proof (Lr _ Hin1) as X.
+        split; [right; exact X|split; [right; exact X|split; [exact Hls|split; [exact Hk|exact Hs]]]].
+  - intros o t Hj H. cbn [path_b] in H. destruct H as [(t1 & t2 & H1 & H2 & ->)|(_ & H)].
+    + destruct (Ns t1 H1) as (L1 & S1). destruct (Sr L1) as (_ & (_ & Er)). apply (Er o t2 Hj H2).
+    + destruct (Es o t Hj H) as (sc & Hin & Hll & Hls). exists sc. split; [|auto].
       destruct Hin as [<-|Hin].
       * destruct (sets_ll s) eqn:E.
         -- cbn in Hlast. destruct r; [left; reflexivity|discriminate].
@@ -474,9 +511,9 @@ Proof.
   { eapply combine_live with (sc := failure); [right; left; reflexivity|exact Hk|exact Hlo]. }
   assert (Sen : forall v d0, satv v d0 failure -> satv v d0 (cur en)).
   { intros v d0 Hs. eapply combine_sat with (sc := failure); [right; left; reflexivity|exact Hk|exact Hkle|exact Hs]. }
-  destruct (Sh Len) as ((Uh & Nh) & Ch).
-  destruct (Sr Hll Hk Hkle) as (Ur & Nr & Cr').
-  split; [|split].
+  destruct (Sh Len) as ((Uh & Nh) & (Ch & Eh)).
+  destruct (Sr Hll Hk Hkle) as (Ur & Nr & Cr' & Er').
+  split; [|split; [|split]].
   - intros t v u d0 H Hs. cbn [upath_hs] in H. destruct H as [H|H].
     + apply Gr. eapply Uh; eauto.
     + eapply Ur; eauto.
@@ -486,12 +523,20 @@ Proof.
     + destruct (Nr t H) as (x & Hx & Kx & Sx). exists x. split; [right; exact Hx|]. split; auto.
   - intros o' t Hj H. cbn [path_hs] in H. destruct H as [H|H].
     + destruct (Ch o' t Hj H) as (sc & Hin & Hl1 & Hl2 & Hk1 & Hs). exists sc.
-      split; [|split; [exact Hl1|split; [exact Hl2|split; [exact (kle_trans _ _ _ Ken Hk1)|]]]].
-      * destruct Hin as [<-|Hin]; [left; reflexivity|].
-        right. apply in_or_app. right. apply Lr. exact Hin.
+      assert (X : (sc = cur h2 /\ ll sc = true) \/ In sc (loops h2)).
+      { destruct Hl1 as [Hl1|Hl1]; [|right; exact Hl1]. destruct Hin as [<-|Hin]; [left; auto|right; exact Hin]. }
+      split; [|split; [|split; [exact Hl2|split; [exact (kle_trans _ _ _ Ken Hk1)|]]]].
+      * destruct X as [(-> & _)|Hin1]; [left; reflexivity|]. right. apply in_or_app. right. apply Lr. exact Hin1.
+      * destruct X as [(-> & Y)|Hin1]; [left; exact Y|]. right. apply Lr. exact Hin1.
       * intros v d0 Hv. apply Hs. apply Sen. exact Hv.
     + destruct (Cr' o' t Hj H) as (sc & Hin & Hl1 & Hl2 & Hk1 & Hs). exists sc.
       split; [|split; [exact Hl1|split; [exact Hl2|split; [exact Hk1|exact Hs]]]].
+      apply in_app_or in Hin. destruct Hin as [Hin|Hin]; [right; apply in_or_app; left; exact Hin|].
+      right. apply in_or_app. right. exact Hin.
+  - intros o' t Hj H. cbn [path_hs] in H. destruct H as [H|H].
+    + destruct (Eh o' t Hj H) as (sc & Hin & Hl1 & Hl2). exists sc. split; [|auto].
+      destruct Hin as [<-|Hin]; [left; reflexivity|]. right. apply in_or_app. right. apply Lr. exact Hin.
+    + destruct (Er' o' t Hj H) as (sc & Hin & Hl1 & Hl2). exists sc. split; [|auto].
       apply in_app_or in Hin. destruct Hin as [Hin|Hin]; [right; apply in_or_app; left; exact Hin|].
       right. apply in_or_app. right. exact Hin.
 Qed.
@@ -516,7 +561,7 @@ Lemma try_except_ok : forall b hs e, P_b b -> P_hs hs -> P_b e ->
   incl (loops st) (loops (try_except b hs e st)) /\
   ll (cur (try_except b hs e st)) = ll (cur st) /\
   (live (cur st) -> snd_ok st (try_except b hs e st) (upath_te b hs e) (path_te b hs e ONorm) /\
-                    lcl (cur st) (exits (try_except b hs e st)) (path_te b hs e)).
+                    lcl (cur st) (try_except b hs e st) (path_te b hs e)).
 Proof.
   intros b hs e IHb IHhs IHe Hokb Hokh Hoke st. unfold try_except.
   set (s1 := visit_b b (te_body_entry st)).
@@ -547,7 +592,7 @@ Proof.
   intros Hl.
   assert (Hl3 : live (cur (te_body_entry st))) by (destruct Hl; split; cbn; auto).
   assert (Hl2 : live (cur (enter (enter st)))) by (destruct Hl; split; cbn; auto).
-  destruct (Sb Hl3) as ((Ub & Nb) & Cb).
+  destruct (Sb Hl3) as ((Ub & Nb) & (Cb & Eb)).
   destruct path_assigned as (_ & Pb & _).
   assert (Lf : live failure) by (apply suppress_live; exact Hl2).
   assert (Sf : forall o tx v d0, path_b b o tx -> satv v d0 (cur st) -> satv v (applyv tx v d0) failure).
@@ -563,8 +608,17 @@ Proof.
       apply S1. exact Hs. }
   assert (Hll3 : ll (cur o3) = false) by (cbn; destruct Hl; auto).
   assert (Kf : kle (vars (cur o3)) (vars failure)) by (apply (suppress_kle _ (enter (enter st)) s1)).
-  destruct (Sh Hll3 (live_keeps _ Lf) Kf) as (Uh & Nh & Chh).
-  split; [split|].
+  destruct (Sh Hll3 (live_keeps _ Lf) Kf) as (Uh & Nh & Chh & Ehh).
+  assert (Fe2 : ll (cur e2) = true -> In (cur e2) (loops (te_finish st e2 hr))).
+  { intros X. apply combine_loops_in; [left; reflexivity|exact X]. }
+  assert (Fs1 : ll (cur s1) = true -> In (cur s1) (loops (te_finish st e2 hr))).
+  { intros X. apply Le2fin. apply Le. apply Le1. apply suppress_inner_loops. exact X. }
+  assert (Fs1' : incl (loops s1) (loops (te_finish st e2 hr))).
+  { intros x Hx. apply Le2fin. apply Le. apply Le1. apply Lsf. exact Hx. }
+  assert (Fhs : forall sc, In sc (fst hr ++ loops (snd hr)) -> (ll sc = true \/ In sc (loops (snd hr))) -> In sc (loops (te_finish st e2 hr))).
+  { intros sc Hin Hq. destruct Hq as [Hq|Hq]; [|apply Lfin; exact Hq].
+    apply in_app_or in Hin. destruct Hin as [Hin|Hin]; [apply combine_loops_in; [right; exact Hin|exact Hq]|apply Lfin; exact Hin]. }
+  split; [split|split].
   - intros t v u d0 H Hs. destruct H as [H|[(ta & tb & Ha & Hb & ->)|(tx & th & Hx & Hh & ->)]].
     + apply Gh. apply Ge. eapply Ub; eauto.
     + destruct (Hsucc ta Ha) as (L1 & S1). destruct (Se L1) as ((Ue & _) & _).
@@ -587,22 +641,25 @@ Proof.
         eapply combine_sat with (sc := h); [right; exact Hin|exact Kh|exact Kle_h|].
         apply Shh. eapply Sf; eauto.
   - intros o t Hj H. destruct H as [(ta & tb & Ha & Hb & ->)|[(_ & Ha)|(tx & Hx & [(th & Hh & ->)|(X & _)])]].
-    + destruct (Hsucc ta Ha) as (L1 & S1). destruct (Se L1) as (_ & Ce).
+    + destruct (Hsucc ta Ha) as (L1 & S1). destruct (Se L1) as (_ & (Ce & _)).
       destruct (Ce o tb Hj Hb) as (sc & Hin & Hq1 & Hq2 & Hk & Hs). exists sc.
-      split; [|split; [exact Hq1|split; [exact Hq2|split; [exact (kle_trans _ _ _ Ke1 Hk)|]]]].
-      * right. apply (exits_flow e2 _ sc Hin Hq1); [|exact Le2fin].
-        intros X. apply combine_loops_in; [left; reflexivity|exact X].
-      * intros v d0 Hv. rewrite applyv_app. apply Hs. apply S1. exact Hv.
+      pose proof (exits_flow e2 _ sc Hin Hq1 Fe2 Le2fin) as X.
+      split; [right; exact X|split; [right; exact X|split; [exact Hq2|split; [exact (kle_trans _ _ _ Ke1 Hk)|]]]].
+      intros v d0 Hv. rewrite applyv_app. apply Hs. apply S1. exact Hv.
     + destruct (Cb o t Hj Ha) as (sc & Hin & Hq1 & Hq2 & Hk & Hs). exists sc.
-      split; [|split; [exact Hq1|split; [exact Hq2|split; [exact Hk|exact Hs]]]].
-      right. apply Le2fin. apply Le. apply Le1. apply (exits_flow s1 _ sc Hin Hq1); [|exact Lsf].
-      apply suppress_inner_loops.
+      pose proof (exits_flow s1 _ sc Hin Hq1 Fs1 Fs1') as X.
+      split; [right; exact X|split; [right; exact X|split; [exact Hq2|split; [exact Hk|exact Hs]]]].
     + destruct (Chh o th Hj Hh) as (sc & Hin & Hq1 & Hq2 & Hk & Hs). exists sc.
-      split; [|split; [exact Hq1|split; [exact Hq2|split; [exact Hk|]]]].
-      * right. apply in_app_or in Hin. destruct Hin as [Hin|Hin].
-        -- apply combine_loops_in; [right; exact Hin|exact Hq1].
-        -- apply Lfin. exact Hin.
-      * intros v d0 Hv. rewrite applyv_app. apply Hs. eapply Sf; eauto.
+      pose proof (Fhs sc Hin Hq1) as X.
+      split; [right; exact X|split; [right; exact X|split; [exact Hq2|split; [exact Hk|]]]].
+      intros v d0 Hv. rewrite applyv_app. apply Hs. eapply Sf; eauto.
+    + exfalso. subst o. destruct Hj; discriminate.
+  - intros o t Hj H. destruct H as [(ta & tb & Ha & Hb & ->)|[(_ & Ha)|(tx & Hx & [(th & Hh & ->)|(X & _)])]].
+    + destruct (Hsucc ta Ha) as (L1 & S1). destruct (Se L1) as (_ & (_ & Ee)).
+      eapply hasll_incl; [apply (hasll_flow e2 _ (Ee o tb Hj Hb) Fe2 Le2fin)|intros x Hx; right; exact Hx].
+    + eapply hasll_incl; [apply (hasll_flow s1 _ (Eb o t Hj Ha) Fs1 Fs1')|intros x Hx; right; exact Hx].
+    + destruct (Ehh o th Hj Hh) as (sc & Hin & Hq1 & Hq2). exists sc. split; [|auto].
+      right. apply (Fhs sc Hin (or_introl Hq1)).
     + exfalso. subst o. destruct Hj; discriminate.
 Qed.
 
@@ -615,17 +672,45 @@ Proof.
   intros [X|X]; discriminate.
 Qed.
 
+Lemma fin_mid_loops : forall jump st sf g2, incl (loops g2) (loops (fin_mid jump st sf g2)).
+Proof.
+  intros jump st sf g2 x Hx. unfold fin_mid. destruct ((jump || ll (cur g2)) && negb (ls (cur g2))); cbn [loops restore].
+  - apply in_or_app. left. exact Hx.
+  - exact Hx.
+Qed.
+
+Lemma fin_mid_appended : forall jump st sf g2, (jump || ll (cur g2)) = true -> ls (cur g2) = false ->
+  In (cur g2) (loops (fin_mid jump st sf g2)).
+Proof.
+  intros jump st sf g2 H1 H2. unfold fin_mid. rewrite H1, H2. cbn [negb andb loops]. apply in_or_app. right. left. reflexivity.
+Qed.
+
+Lemma fin_mid_cur : forall jump st sf g2, cur (fin_mid jump st sf g2) = cur st.
+Proof. intros. unfold fin_mid. destruct ((jump || ll (cur g2)) && negb (ls (cur g2))); reflexivity. Qed.
+
+Lemma fin_mid_u2d : forall jump st sf g2, u2d (fin_mid jump st sf g2) = u2d g2.
+Proof. intros. unfold fin_mid. destruct ((jump || ll (cur g2)) && negb (ls (cur g2))); reflexivity. Qed.
+
+Lemma te_jump_free : forall b hs e o t, is_jump o -> path_te b hs e o t ->
+  free_jump_b b || free_jump_hs hs || free_jump_b e = true.
+Proof.
+  intros b hs e o t Hj H.
+  destruct (free_jump_b b) eqn:E1; [reflexivity|]. destruct (free_jump_hs hs) eqn:E2; [reflexivity|].
+  destruct (free_jump_b e) eqn:E3; [reflexivity|]. exfalso.
+  apply (path_te_no_free_jump b hs e o t E1 E2 E3 H). exact Hj.
+Qed.
+
 Lemma case_try : forall b hs e f, P_b b -> P_hs hs -> P_b e -> P_b f -> P_s (STry b hs e f).
 Proof.
   intros b hs e f IHb IHhs IHe IHf Hok st. cbn [lower_ok_s] in Hok.
-  apply andb_true_iff in Hok. destruct Hok as [Hok Hfin]. apply andb_true_iff in Hok. destruct Hok as [Hok Hokf].
+  apply andb_true_iff in Hok. destruct Hok as [Hok Hokf].
   apply andb_true_iff in Hok. destruct Hok as [Hok Hoke]. apply andb_true_iff in Hok. destruct Hok as [Hokb Hokh].
   pose proof (try_except_ok b hs e IHb IHhs IHe Hokb Hokh Hoke) as TE.
   cbn [visit_s]. fold (try_except b hs e).
   destruct f as [|fs fr].
   - cbn [is_nil]. destruct (TE st) as (G & K & L & M & S). split; [exact G|]. split; [exact K|].
     split; [exact L|]. split; [intros _; exact M|].
-    intros Hl. destruct (S Hl) as ((U & N) & C). split; [split|].
+    intros Hl. destruct (S Hl) as ((U & N) & (C & E)). split; [split|split].
     + intros t v u d0 H Hs. cbn [upath_s] in H. destruct H as [H|[H|[H|(o1 & t1 & t2 & _ & H & _)]]].
       * eapply U; eauto. left. exact H.
       * eapply U; eauto. right. left. exact H.
@@ -635,66 +720,120 @@ Proof.
       rewrite app_nil_r. apply N. exact Hte.
     + intros o t Hj H. cbn [path_s path_b] in H. destruct H as (o1 & t1 & o2 & t2 & Hte & (-> & ->) & -> & ->).
       rewrite app_nil_r. apply (C o1 t1 Hj Hte).
-  - set (f := BCons fs fr) in *. cbn [is_nil orb] in Hfin. apply negb_true_iff in Hfin.
-    apply orb_false_iff in Hfin. destruct Hfin as [Hfin Hjf]. apply orb_false_iff in Hfin. destruct Hfin as [Hfin Hje].
-    apply orb_false_iff in Hfin. destruct Hfin as [Hjb Hjh].
-    cbn [is_nil].
+    + intros o t Hj H. cbn [path_s path_b] in H. destruct H as (o1 & t1 & o2 & t2 & Hte & (-> & ->) & -> & ->).
+      apply (E o1 t1 Hj Hte).
+  - set (f := BCons fs fr) in *. cbn [is_nil].
+    set (jump := free_jump_b b || free_jump_hs hs || free_jump_b e).
     set (A := assigned_b b ++ assigned_hs hs ++ assigned_b e).
     set (tt := try_except b hs e (fin_te_entry st)).
     set (sf := fin_after_te A st tt).
     set (g1 := fin_first_entry st sf).
     set (g2 := visit_b f g1).
-    set (g3 := fin_second_entry st sf g2).
+    set (mid := fin_mid jump st sf g2).
+    set (g3 := fin_second_entry jump st sf g2).
     destruct (TE (fin_te_entry st)) as (Gt & Kt & Lt & _ & St). fold tt in Gt, Kt, Lt, St.
     destruct (IHf Hokf g1) as (Gf1 & Kf1 & Lf1 & _ & Sf1). fold g2 in Gf1, Kf1, Lf1, Sf1.
     destruct (IHf Hokf g3) as (Gf2 & Kf2 & Lf2 & Mf2 & Sf2).
     assert (G2 : grow st g2).
     { intros x Hx. apply Gf1. apply Gt. exact Hx. }
-    split; [intros x Hx; apply Gf2; apply G2; exact Hx|].
+    assert (G3 : grow g2 g3).
+    { intros x Hx. unfold g3, fin_second_entry. rewrite combine_u2d. rewrite fin_mid_u2d. exact Hx. }
+    split; [intros x Hx; apply Gf2; apply G3; apply G2; exact Hx|].
     assert (K3 : kle (vars (cur st)) (vars (cur g3))).
-    { apply (combine_kle _ (restore (restore st (snd sf)) g2)). }
+    { unfold g3, fin_second_entry. pose proof (combine_kle [fst sf] (fin_mid jump st sf g2)) as X.
+      rewrite fin_mid_cur in X. exact X. }
     split; [eapply kle_trans; eauto|].
+    assert (Lsf : incl (loops tt) (loops (snd sf))) by (apply (suppress_loops_incl _ (enter st) tt)).
+    assert (Lg1 : incl (loops (snd sf)) (loops g1)) by (apply (combine_loops_incl _ (enter (restore st (snd sf))))).
+    assert (Lg3 : incl (loops g2) (loops g3)).
+    { intros x Hx. apply (combine_loops_incl _ (fin_mid jump st sf g2)). apply fin_mid_loops. exact Hx. }
+    assert (Ltt_fin : incl (loops tt) (loops (visit_b f g3))).
+    { intros x Hx. apply Lf2. apply Lg3. apply Lf1. apply Lg1. apply Lsf. exact Hx. }
+    split; [intros x Hx; apply Ltt_fin; apply Lt; exact Hx|].
     split.
-    { intros x Hx. apply Lf2. apply (combine_loops_incl _ (restore (restore st (snd sf)) g2)).
-      apply Lf1. apply (combine_loops_incl _ (enter (restore st (snd sf)))).
-      apply (suppress_loops_incl _ (enter st) tt). apply Lt. exact Hx. }
-    split.
-    { intros _. destruct sets_ll_free as (_ & SF & _). transitivity (ll (cur g3)); [exact (Mf2 (SF f Hjf))|reflexivity]. }
+    { intros Hs. cbn [sets_ll] in Hs. transitivity (ll (cur g3)); [exact (Mf2 Hs)|].
+      unfold g3, fin_second_entry. cbn [combine cur ll]. rewrite fin_mid_cur. reflexivity. }
     intros Hl.
     assert (Hl2 : live (cur (fin_te_entry st))) by (destruct Hl; split; cbn; auto).
-    destruct (St Hl2) as ((Ut & Nt) & _).
+    destruct (St Hl2) as ((Ut & Nt) & (Ct & Et)).
     set (failure := cur (snd sf)).
     assert (Lf : live failure) by (apply suppress_live; apply enter_live; exact Hl).
     assert (Kf : kle (vars (cur st)) (vars failure)) by (apply (suppress_kle _ (enter st) tt)).
-    assert (Lg1 : live (cur g1)).
+    assert (Lvg1 : live (cur g1)).
     { eapply combine_live with (sc := failure); [left; reflexivity|apply live_keeps; exact Lf|].
       apply (enter_live (restore st (snd sf))). exact Hl. }
+    assert (Kg1 : kle (vars (cur st)) (vars (cur g1))) by (apply (combine_kle _ (enter (restore st (snd sf))))).
     assert (Sg1 : forall o1 t1 v d0, path_te b hs e o1 t1 -> satv v d0 (cur st) -> satv v (applyv t1 v d0) (cur g1)).
     { intros o1 t1 v d0 Hp Hs.
       eapply combine_sat with (sc := failure); [left; reflexivity|apply live_keeps; exact Lf|exact Kf|].
       apply suppress_path_sat; [apply enter_live; exact Hl|eapply path_te_assigned; eauto|exact Hs]. }
-    destruct (Sf1 Lg1) as ((Uf1 & _) & _).
-    split; [split|].
+    destruct (Sf1 Lvg1) as ((Uf1 & Nf1) & (Cf1 & Ef1)).
+    assert (Lmid : live (cur mid)) by (unfold mid; rewrite fin_mid_cur; exact Hl).
+    (* scopes of the try/except part that hold LEAVES_LOOP stay exits of the loop body *)
+    assert (Ftt : ll (cur tt) = true -> In (cur tt) (loops (visit_b f g3))).
+    { intros X. apply Lf2. apply Lg3. apply Lf1. apply Lg1. apply (suppress_inner_loops _ (enter st) tt). exact X. }
+    (* the interrupted scope, when it joins the loop list *)
+    assert (Fg2 : (jump || ll (cur g2)) = true -> ls (cur g2) = false -> In (cur g2) (loops (visit_b f g3))).
+    { intros X Y. apply Lf2. apply (combine_loops_incl _ (fin_mid jump st sf g2)). apply fin_mid_appended; assumption. }
+    assert (Fg2' : incl (loops g2) (loops (visit_b f g3))) by (intros x Hx; apply Lf2; apply Lg3; exact Hx).
+    split; [split|split].
     + intros t v u d0 H Hs. cbn [upath_s] in H. destruct H as [H|[H|[H|(o1 & t1 & t2 & Hte & H & ->)]]].
-      * apply Gf2. apply Gf1. eapply Ut; eauto. left. exact H.
-      * apply Gf2. apply Gf1. eapply Ut; eauto. right. left. exact H.
-      * apply Gf2. apply Gf1. eapply Ut; eauto. right. right. exact H.
-      * apply Gf2. rewrite applyv_app. eapply Uf1; eauto.
+      * apply Gf2. apply G3. apply Gf1. eapply Ut; eauto. left. exact H.
+      * apply Gf2. apply G3. apply Gf1. eapply Ut; eauto. right. left. exact H.
+      * apply Gf2. apply G3. apply Gf1. eapply Ut; eauto. right. right. exact H.
+      * apply Gf2. apply G3. rewrite applyv_app. eapply Uf1; eauto.
     + intros t H. cbn [path_s] in H. destruct H as (o1 & t1 & o2 & t2 & Hte & Hf & -> & Ho).
       destruct o2; try discriminate. subst o1.
       destruct (Nt t1 Hte) as (L1 & S1).
-      assert (Lg3 : live (cur g3)).
-      { eapply combine_live with (sc := cur tt); [left; reflexivity|apply live_keeps; exact L1|exact Hl]. }
-      destruct (Sf2 Lg3) as ((_ & Nf2) & _). destruct (Nf2 t2 Hf) as (L2 & S2).
+      assert (Lvg3 : live (cur g3)).
+      { eapply combine_live with (sc := cur tt); [left; reflexivity|apply live_keeps; exact L1|exact Lmid]. }
+      destruct (Sf2 Lvg3) as ((_ & Nf2) & _). destruct (Nf2 t2 Hf) as (L2 & S2).
       split; [exact L2|]. intros v d0 Hs. rewrite applyv_app. apply S2.
-      eapply combine_sat with (sc := cur tt); [left; reflexivity|apply live_keeps; exact L1|exact Kt|].
-      apply S1. exact Hs.
-    + intros o t Hj H. exfalso. cbn [path_s] in H. destruct H as (o1 & t1 & o2 & t2 & Hte & Hf & _ & Ho).
-      destruct no_free_jump_outcome as (_ & NB & _).
-      destruct o2; subst o;
-        try (apply (NB f Hjf _ _ Hf); exact Hj);
-        try (destruct Hj; discriminate).
-      apply (path_te_no_free_jump b hs e _ _ Hjb Hjh Hje Hte). exact Hj.
+      eapply combine_sat with (sc := cur tt); [left; reflexivity|apply live_keeps; exact L1| |].
+      * unfold mid. rewrite fin_mid_cur. exact Kt.
+      * apply S1. exact Hs.
+    + (* coverage of paths ending in break/continue *)
+      intros o t Hj H. cbn [path_s] in H. destruct H as (o1 & t1 & o2 & t2 & Hte & Hf & -> & Ho).
+      destruct (outcome_norm_dec o2) as [->|Hn2].
+      * (* the try/except part jumps, the finally block completes *)
+        subst o1. destruct (Nf1 t2 Hf) as (L2 & S2). exists (cur g2).
+        assert (X : In (cur g2) (loops (visit_b f g3))).
+        { apply Fg2; [|destruct L2; assumption]. unfold jump. rewrite (te_jump_free b hs e o t1 Hj Hte). reflexivity. }
+        split; [right; exact X|split; [right; exact X|split; [destruct L2; assumption|split; [exact (kle_trans _ _ _ Kg1 Kf1)|]]]].
+        intros v d0 Hs. rewrite applyv_app. apply S2. eapply Sg1; eauto.
+      * (* the finally block itself ends in break/continue *)
+        assert (Ho2 : o = o2) by (destruct o2; congruence). clear Ho. subst o.
+        destruct (outcome_norm_dec o1) as [->|Hn1].
+        -- destruct (Nt t1 Hte) as (L1 & S1).
+           assert (Lvg3 : live (cur g3)).
+           { eapply combine_live with (sc := cur tt); [left; reflexivity|apply live_keeps; exact L1|exact Lmid]. }
+           destruct (Sf2 Lvg3) as (_ & (Cf2 & _)).
+           destruct (Cf2 o2 t2 Hj Hf) as (sc & Hin & Hq1 & Hq2 & Hk & Hs). exists sc.
+           split; [exact Hin|split; [exact Hq1|split; [exact Hq2|split; [exact (kle_trans _ _ _ K3 Hk)|]]]].
+           intros v d0 Hv. rewrite applyv_app. apply Hs.
+           eapply combine_sat with (sc := cur tt); [left; reflexivity|apply live_keeps; exact L1| |].
+           ++ unfold mid. rewrite fin_mid_cur. exact Kt.
+           ++ apply S1. exact Hv.
+        -- destruct (Cf1 o2 t2 Hj Hf) as (sc & Hin & Hq1 & Hq2 & Hk & Hs). exists sc.
+           assert (X : In sc (loops (visit_b f g3))).
+           { destruct Hq1 as [Hq1|Hq1]; [|apply Fg2'; exact Hq1].
+             destruct Hin as [<-|Hin]; [|apply Fg2'; exact Hin].
+             apply Fg2; [rewrite Hq1; apply orb_true_r|exact Hq2]. }
+           split; [right; exact X|split; [right; exact X|split; [exact Hq2|split; [exact (kle_trans _ _ _ Kg1 Hk)|]]]].
+           intros v d0 Hv. rewrite applyv_app. apply Hs. eapply Sg1; eauto.
+    + (* some exit scope holds LEAVES_LOOP *)
+      intros o t Hj H. cbn [path_s] in H. destruct H as (o1 & t1 & o2 & t2 & Hte & Hf & -> & Ho).
+      destruct (outcome_norm_dec o2) as [->|Hn2].
+      * subst o1. eapply hasll_incl; [apply (hasll_flow tt _ (Et o t1 Hj Hte) Ftt Ltt_fin)|intros x Hx; right; exact Hx].
+      * assert (Ho2 : o = o2) by (destruct o2; congruence). clear Ho. subst o.
+        destruct (outcome_norm_dec o1) as [->|Hn1].
+        -- destruct (Nt t1 Hte) as (L1 & S1).
+           assert (Lvg3 : live (cur g3)).
+           { eapply combine_live with (sc := cur tt); [left; reflexivity|apply live_keeps; exact L1|exact Lmid]. }
+           destruct (Sf2 Lvg3) as (_ & (_ & Ef2)). apply (Ef2 o2 t2 Hj Hf).
+        -- destruct (Ef1 o2 t2 Hj Hf) as (sc & Hin & Hq1 & Hq2). exists sc. split; [|auto]. right.
+           destruct Hin as [<-|Hin]; [|apply Fg2'; exact Hin].
+           apply Fg2; [rewrite Hq1; apply orb_true_r|exact Hq2].
 Qed.
 
 Lemma case_loop : forall fv b e, P_b b -> P_b e -> P_s (SLoop fv b e).
@@ -736,7 +875,7 @@ Proof.
     apply loop_st2_ll. }
   intros Hl.
   assert (Lm0 : live (cur m0)) by (destruct Hl; split; cbn; auto).
-  destruct (Sb1 Lm0) as ((Ub1 & Nb1) & Cb1).
+  destruct (Sb1 Lm0) as ((Ub1 & Nb1) & (Cb1 & Eb1)).
   assert (Kbody : kle (vars (cur st)) (vars body)).
   { apply (combine_kle _ (mkState (cur (enter st)) (loops st) (u2d m1))). }
   assert (LX : live (cur (mkState (cur (enter st)) (loops st) (u2d m1)))) by (destruct Hl; split; cbn; auto).
@@ -753,6 +892,7 @@ Proof.
     - destruct (Cb1 o t Hj Ht) as (sc & Hin & Hq1 & Hq2 & Hk1 & Hs).
       assert (Hk : keeps (strip_ll sc) = true) by (unfold keeps; cbn; rewrite Hq2; reflexivity).
       assert (HinL : In (strip_ll sc) (map strip_ll (loop_scopes m1))) by (apply in_map; exact Hin).
+      clear Hq1.
       split.
       + eapply combine_live with (sc := strip_ll sc); [exact HinL|exact Hk|exact LX].
       + intros v d0 Hv. eapply combine_sat with (sc := strip_ll sc); [exact HinL|exact Hk|exact Hk1|].
@@ -811,7 +951,7 @@ Proof.
     - exact K2. }
   assert (Gm1 : incl (u2d m1) (u2d r1)).
   { intros x Hx. apply Gb2. apply Ge. unfold e1. rewrite loop_else_entry_u2d. unfold st2. rewrite loop_st2_u2d. exact Hx. }
-  split; [split|].
+  split; [split|split].
   - intros t v u d0 H Hs. cbn [upath_s] in H. destruct H as (th & t2 & Hi & -> & H).
     unfold fin. rewrite loop_finish_u2d. cbn [restore u2d]. rewrite applyv_app.
     pose proof (F2 th Hi v d0 Hs) as Hd.
@@ -841,7 +981,7 @@ Proof.
            apply S2. apply (Se1 v d0); auto.
     + (* left through break *)
       assert (Hjb : is_jump OBrk) by (left; reflexivity).
-      destruct (Cb1 OBrk t2 Hjb Hbrk) as (sc & Hin & Hq1 & _).
+      destruct (Eb1 OBrk t2 Hjb Hbrk) as (sc & Hin & Hq1 & _).
       unfold fin. rewrite (loop_finish_keep fv _ _ sc Hin Hq1). cbn [restore cur].
       destruct (F1 OBrk t2 (or_intror Hjb) Hbrk) as (Lb & _).
       destruct (F3 Lb) as (L4' & S4). split; [exact L4'|].
@@ -851,12 +991,22 @@ Proof.
     destruct H as [(-> & He)|[(X & _)|([X|X] & _)]];
       try (exfalso; subst o; destruct Hj; discriminate).
     destruct e as [|es er]; [exfalso; cbn in He; destruct He as (X & _); apply (jump_not_norm o Hj X)|].
-    destruct (F4 eq_refl eq_refl) as (Le1 & Se1). destruct (Se Le1) as (_ & Ce).
+    destruct (F4 eq_refl eq_refl) as (Le1 & Se1). destruct (Se Le1) as (_ & (Ce & _)).
     destruct (Ce o t2 Hj He) as (sc & Hin & Hq1 & Hq2 & Hk & Hs). exists sc.
-    split; [|split; [exact Hq1|split; [exact Hq2|split; [exact (kle_trans _ _ _ Ke1 Hk)|]]]].
-    + right. apply L4f. apply (exits_flow e2 _ sc Hin Hq1); [|exact L4].
-      intros X. apply combine_loops_in; [right; left; reflexivity|exact X].
-    + intros v d0 Hv. rewrite applyv_app. apply Hs. apply (Se1 v d0); auto.
+    assert (X : In sc (loops fin)).
+    { apply L4f. apply (exits_flow e2 _ sc Hin Hq1); [|exact L4].
+      intros X. apply combine_loops_in; [right; left; reflexivity|exact X]. }
+    split; [right; exact X|split; [right; exact X|split; [exact Hq2|split; [exact (kle_trans _ _ _ Ke1 Hk)|]]]].
+    intros v d0 Hv. rewrite applyv_app. apply Hs. apply (Se1 v d0); auto.
+  - intros o t Hj H. cbn [path_s] in H. destruct H as (th & t2 & Hi & -> & H).
+    destruct H as [(-> & He)|[(X & _)|([X|X] & _)]];
+      try (exfalso; subst o; destruct Hj; discriminate).
+    destruct e as [|es er]; [exfalso; cbn in He; destruct He as (X & _); apply (jump_not_norm o Hj X)|].
+    destruct (F4 eq_refl eq_refl) as (Le1 & Se1). destruct (Se Le1) as (_ & (_ & Ee)).
+    eapply hasll_incl; [|intros x Hx; right; exact Hx].
+    eapply hasll_incl; [|exact L4f].
+    apply (hasll_flow e2 _ (Ee o t2 Hj He)); [|exact L4].
+    intros X. apply combine_loops_in; [right; left; reflexivity|exact X].
 Qed.
 
 Lemma sound_all : (forall s, P_s s) /\ (forall b, P_b b) /\ (forall hs, P_hs hs).
@@ -864,70 +1014,81 @@ Proof.
   apply syntax_mutind.
   - (* SAssign *) intros v d _ st. cbn [visit_s]. split; [intros x Hx; exact Hx|]. split; [apply kle_upd|].
     split; [apply incl_refl|]. split; [intros _; reflexivity|].
-    intros Hl. split; [split|].
+    intros Hl. split; [split|split].
     + intros t w u d0 H. destruct H.
     + intros t (_ & ->). split; [exact Hl|]. intros w d0 Hs. apply set_var_sat. exact Hs.
     + intros o t Hj (X & _). exfalso. apply (jump_not_norm o Hj X).
+    + intros o t Hj (X & _). exfalso. apply (jump_not_norm o Hj X).
   - (* SUse *) intros v u _ st. cbn [visit_s]. split; [intros x Hx; apply in_or_app; left; exact Hx|].
     split; [apply kle_refl|]. split; [apply incl_refl|]. split; [intros _; reflexivity|].
-    intros Hl. split; [split|].
+    intros Hl. split; [split|split].
     + intros t w u' d0 (<- & <- & ->) Hs. apply get_var_in. exact Hs.
     + intros t (_ & ->). split; [exact Hl|]. intros w d0 Hs. exact Hs.
     + intros o t Hj (X & _). exfalso. apply (jump_not_norm o Hj X).
+    + intros o t Hj (X & _). exfalso. apply (jump_not_norm o Hj X).
   - (* SCall *) intros _ st. cbn [visit_s]. split; [apply grow_refl|]. split; [apply kle_refl|].
     split; [apply incl_refl|]. split; [intros _; reflexivity|].
-    intros Hl. split; [split|].
+    intros Hl. split; [split|split].
     + intros t w u d0 H; destruct H.
     + intros t (_ & ->). split; [exact Hl|]. intros w d0 Hs. exact Hs.
     + intros o t Hj ([X|X] & _); exfalso; subst o; destruct Hj; discriminate.
+    + intros o t Hj ([X|X] & _); exfalso; subst o; destruct Hj; discriminate.
   - (* SPass *) intros _ st. cbn [visit_s]. split; [apply grow_refl|]. split; [apply kle_refl|].
     split; [apply incl_refl|]. split; [intros _; reflexivity|].
-    intros Hl. split; [split|].
+    intros Hl. split; [split|split].
     + intros t w u d0 H; destruct H.
     + intros t (_ & ->). split; [exact Hl|]. intros w d0 Hs. exact Hs.
     + intros o t Hj (X & _). exfalso. apply (jump_not_norm o Hj X).
+    + intros o t Hj (X & _). exfalso. apply (jump_not_norm o Hj X).
   - (* SReturn *) intros _ st. cbn [visit_s]. split; [intros x Hx; exact Hx|]. split; [apply kle_refl|].
     split; [apply incl_refl|]. split; [intros _; reflexivity|].
-    intros Hl. split; [split|].
+    intros Hl. split; [split|split].
     + intros t w u d0 H; destruct H.
     + intros t (X & _). discriminate.
+    + intros o t Hj (X & _). exfalso. subst o. destruct Hj; discriminate.
     + intros o t Hj (X & _). exfalso. subst o. destruct Hj; discriminate.
   - (* SRaise *) intros _ st. cbn [visit_s]. split; [intros x Hx; exact Hx|]. split; [apply kle_refl|].
     split; [apply incl_refl|]. split; [intros _; reflexivity|].
-    intros Hl. split; [split|].
+    intros Hl. split; [split|split].
     + intros t w u d0 H; destruct H.
     + intros t (X & _). discriminate.
     + intros o t Hj (X & _). exfalso. subst o. destruct Hj; discriminate.
+    + intros o t Hj (X & _). exfalso. subst o. destruct Hj; discriminate.
   - (* SBreak *) intros _ st. cbn [visit_s]. split; [intros x Hx; exact Hx|]. split; [apply kle_refl|].
     split; [apply incl_refl|]. split; [intros X; discriminate|].
-    intros Hl. split; [split|].
+    intros Hl. split; [split|split].
     + intros t w u d0 H; destruct H.
     + intros t (X & _). discriminate.
     + intros o t Hj (_ & ->). exists (cur (set_ll st)). split; [left; reflexivity|].
-      split; [reflexivity|]. split; [destruct Hl as [H1 _]; exact H1|]. split; [apply kle_refl|].
+      split; [left; reflexivity|]. split; [destruct Hl as [H1 _]; exact H1|]. split; [apply kle_refl|].
       intros v d0 Hs. exact Hs.
+    + intros o t Hj _. exists (cur (set_ll st)). split; [left; reflexivity|].
+      split; [reflexivity|destruct Hl as [H1 _]; exact H1].
   - (* SContinue *) intros _ st. cbn [visit_s]. split; [intros x Hx; exact Hx|]. split; [apply kle_refl|].
     split; [apply incl_refl|]. split; [intros X; discriminate|].
-    intros Hl. split; [split|].
+    intros Hl. split; [split|split].
     + intros t w u d0 H; destruct H.
     + intros t (X & _). discriminate.
     + intros o t Hj (_ & ->). exists (cur (set_ll st)). split; [left; reflexivity|].
-      split; [reflexivity|]. split; [destruct Hl as [H1 _]; exact H1|]. split; [apply kle_refl|].
+      split; [left; reflexivity|]. split; [destruct Hl as [H1 _]; exact H1|]. split; [apply kle_refl|].
       intros v d0 Hs. exact Hs.
+    + intros o t Hj _. exists (cur (set_ll st)). split; [left; reflexivity|].
+      split; [reflexivity|destruct Hl as [H1 _]; exact H1].
   - intros b Hb e He. apply case_if; assumption.
   - intros fv b Hb e He. apply case_loop; assumption.
   - intros sup b Hb. apply case_with; assumption.
   - intros b Hb hs Hhs e He f Hf. apply case_try; assumption.
   - (* BNil *) intros _ st. cbn [visit_b]. split; [apply grow_refl|]. split; [apply kle_refl|].
     split; [apply incl_refl|]. split; [intros _; reflexivity|].
-    intros Hl. split; [split|].
+    intros Hl. split; [split|split].
     + intros t w u d0 H; destruct H.
     + intros t (_ & ->). split; [exact Hl|]. intros w d0 Hs. exact Hs.
+    + intros o t Hj (X & _). exfalso. apply (jump_not_norm o Hj X).
     + intros o t Hj (X & _). exfalso. apply (jump_not_norm o Hj X).
   - intros s Hs r Hr. apply case_bcons; assumption.
   - (* HNil *) intros _ dummy failure o. cbn [visit_hs fst snd]. split; [apply grow_refl|]. split; [reflexivity|].
     split; [apply incl_refl|]. split; [constructor|]. intros _ _ _.
-    split; [intros t v u d0 H; destruct H|]. split; [intros t H; destruct H|intros o' t _ H; destruct H].
+    split; [intros t v u d0 H; destruct H|]. split; [intros t H; destruct H|]. split; intros o' t _ H; destruct H.
   - intros h Hh r Hr. apply case_hcons; assumption.
 Qed.
 
@@ -944,12 +1105,12 @@ Lemma block_invariant : forall b st, lower_ok_b b = true -> live (cur st) ->
   (forall t, path_b b ONorm t -> live (cur (visit_b b st)) /\
      forall v d0, satv v d0 (cur st) -> satv v (applyv t v d0) (cur (visit_b b st))) /\
   (forall o t, is_jump o -> path_b b o t ->
-     exists sc, In sc (exits (visit_b b st)) /\ ll sc = true /\ ls sc = false /\
+     exists sc, In sc (exits (visit_b b st)) /\ ls sc = false /\
        forall v d0, satv v d0 (cur st) -> satv v (applyv t v d0) sc).
 Proof.
   intros b st Hok Hl. destruct sound_all as (_ & Pb & _). destruct (Pb b Hok st) as (_ & _ & _ & _ & S).
-  destruct (S Hl) as ((U & N) & C). split; [exact U|]. split; [exact N|].
-  intros o t Hj H. destruct (C o t Hj H) as (sc & H1 & H2 & H3 & _ & H5). exists sc. auto.
+  destruct (S Hl) as ((U & N) & (C & _)). split; [exact U|]. split; [exact N|].
+  intros o t Hj H. destruct (C o t Hj H) as (sc & H1 & _ & H3 & _ & H5). exists sc. auto.
 Qed.
 
 Theorem strict_sub_reported : forall p u d,
@@ -991,7 +1152,7 @@ Proof.
     apply orb_false_iff in H. destruct H as [Hb Hh].
     destruct (IHb Hb) as (A1 & A2 & A3). destruct (IHhs Hh) as (B1 & B3).
     destruct (IHe He) as (C1 & C2 & C3). destruct (IHf Hf) as (D1 & D2 & D3).
-    rewrite A1, B1, C1, D1, A3, B3, C3, D3. cbn. rewrite orb_true_r. repeat split; reflexivity.
+    rewrite A1, B1, C1, D1, D2, A3, B3, C3, D3. repeat split; reflexivity.
   - intros s IHs r IHr H. apply orb_false_iff in H. destruct H as [Hs Hr].
     destruct (IHs Hs) as (A1 & A2 & A3). destruct (IHr Hr) as (B1 & B2 & B3).
     rewrite A1, B1, A2, B2, A3, B3. repeat split; reflexivity.
